@@ -141,6 +141,7 @@ pub fn read_engine(eg: &EGraph) -> RawDb {
         }
         let ft = f.func_type().clone();
         let is_ctor = matches!(ft.subtype, egglog::ast::FunctionSubtype::Constructor);
+        let is_relation = is_ctor && ft.output.name().starts_with(egglog::util::INTERNAL_SYMBOL_PREFIX);
         let mut rows = Vec::new();
         let mut problems = Vec::new();
         if is_ctor {
@@ -151,7 +152,11 @@ pub fn read_engine(eg: &EGraph) -> RawDb {
                     .zip(ft.input.iter())
                     .map(|(v, s)| read_val(eg, s, *v, &mut problems, &name))
                     .collect();
-                let out = read_val(eg, &ft.output, en.eclass, &mut problems, &name);
+                let mut out = read_val(eg, &ft.output, en.eclass, &mut problems, &name);
+                if is_relation {
+                    // a relation is a constructor into a private, non-unionable sort
+                    out = RVal::Unit;
+                }
                 rows.push(RawRow {
                     args,
                     out,
